@@ -561,6 +561,25 @@ def replay_C04(ctx):
     return check_C04(ctx)
 
 
+def check_C06(ctx):
+    base = diverge_classify("C06")
+    def classify(name, fields, run):
+        if name == "diverge_bad" and not run["family"].startswith(("inbox:Update", "inbox:Delete", "inbox:Accept", "inbox:Undo", "authority:")):
+            return (None, None)
+        return base(name, fields, run)
+    return pub_property(ctx, "C06", "Properties/C06.v",
+                        ["Pub/Util.v must_origin_match / must_actors_match / host_of, Pub/SideEffect.v authorize_post_inbox / actor_iris, Pub/Fed.v update / delete / accept / undo, Pub/Monitors.v acc_step / seen_step",
+                         "modelled, not verified: url.Parse's host extraction is the model's host_of (authority without userinfo, compared as written), tied by replay on hosts differing in port, case and sub-domain"],
+                        {"monitors": ["authority_bad", "diverge_bad"], "classify": classify,
+                         "rule": "hosts equal / different / differing in port, case or sub-domain for the activity id and 1..3 object ids as IRIs or embedded; Accept with the stored Follow present, absent, of another type, by another actor, lacking the accepting actor, embedded or by IRI; Undo with equal / subset / superset / disjoint actor sets; 1..3 actors as IRI or embedded, blocked or not; single faults"},
+                        family_filter=lambda f: f.startswith(("inbox:", "authority:")),
+                        run_specs=[("authority", ["-families", "authority", "-n", "12" if ctx.tier == "quick" else "200", "-faults", "none", "-maxruns", "20000"]), ("std", PUB_STD[ctx.tier])])
+
+
+def replay_C06(ctx):
+    return check_C06(ctx)
+
+
 def check_C03(ctx):
     def classify(name, fields, run):
         return ("C03:%s:%s" % (run["family"].split(":")[0], "payload" if "payload" in fields[1] else "body"), "%s (faults %s): %s" % (run["family"], run["faults"], fields[1]))
